@@ -37,6 +37,53 @@ EXC = {
 }
 
 
+def _pyserial_faults():
+    """The faults pyserial itself can raise from read() and write(), harvested from the installed
+    pyserial's source (posix and win32 back ends): one exception kind per distinct class and
+    message text, "{}" filled with the text of an I/O error.  Returns (read_kinds, write_kinds)."""
+    import ast
+    import inspect
+    found = {"read": [], "write": []}
+    for modname in ("serial.serialposix", "serial.serialwin32"):
+        try:
+            src = inspect.getsource(__import__(modname, fromlist=["x"]))
+        except (ImportError, OSError, ValueError, AttributeError):
+            try:
+                import importlib.util
+                spec = importlib.util.find_spec(modname)
+                src = open(spec.origin).read()
+            except Exception:        # pragma: no cover - back end not shipped
+                continue
+        for fn in ast.walk(ast.parse(src)):
+            if not (isinstance(fn, ast.FunctionDef) and fn.name in found):
+                continue
+            for node in ast.walk(fn):
+                if not (isinstance(node, ast.Raise) and isinstance(node.exc, ast.Call)):
+                    continue
+                cls = getattr(node.exc.func, "id", None)
+                if cls not in ("SerialException", "SerialTimeoutException") or not node.exc.args:
+                    continue
+                arg = node.exc.args[0]
+                if isinstance(arg, ast.Call) and isinstance(arg.func, ast.Attribute) \
+                        and arg.func.attr == "format":
+                    arg = arg.func.value
+                if isinstance(arg, ast.Constant) and isinstance(arg.value, str):
+                    text = arg.value.replace("{!r}", "{}").format(
+                        *["[Errno 5] Input/output error"] * arg.value.count("{"))
+                    if (cls, text) not in found[fn.name]:
+                        found[fn.name].append((cls, text))
+    kinds = {"read": [], "write": []}
+    for where, items in found.items():
+        for n, (cls, text) in enumerate(items):
+            name = "pyserial_%s_%d" % (where, n)
+            EXC[name] = (lambda c=cls, t=text: getattr(serial, c)(t))
+            kinds[where].append(name)
+    return tuple(kinds["read"]), tuple(kinds["write"])
+
+
+PYSERIAL_READ_FAULTS, PYSERIAL_WRITE_FAULTS = _pyserial_faults()
+
+
 class Profile:
     """Which choice points a FakePort offers, and their alternatives (beyond the default)."""
 
@@ -293,7 +340,10 @@ NO_OK_QUERIES = ("A", "I", "MR", "PI", "QM", "QG", "V")      # documented single
 class LegacyBoard:
     """Firmware 2.x syntax: commands answer OK, queries answer data (+ OK for most)."""
 
-    def __init__(self, version="2.8.1", banner=None, nickname="", layer=0, rb_ack=False):
+    def __init__(self, version="2.8.1", banner=None, nickname="", layer=0, rb_ack=False,
+                 extra_queries=()):
+        # further ordinary queries this firmware knows (a data line, then OK), by name
+        self.extra_queries = {str(n).strip().upper() for n in extra_queries}
         self.rb_ack = rb_ack            # a board that acknowledges RB / BL before it restarts
         self.version = version
         self.banner = banner if banner is not None else \
@@ -314,6 +364,8 @@ class LegacyBoard:
         self.requests.append(request)
         fields = [f.strip() for f in request.strip().split(",")]
         name = fields[0].upper()
+        if name in self.extra_queries:
+            return ["%d,%d" % (len(self.requests), len(name)), "OK"]
         if name == "V":
             return [self.banner] if self.banner is not None else []
         if name == "QB":
